@@ -38,6 +38,8 @@ inductive HKind where
   /-- calls `session.close(force_after)` from inside the handler; `deadline` = the instant its
       `timeout_after(force_after)` fires -/
   | closer (deadline : Nat)
+  /-- calls `session.abort()` and returns -/
+  | aborter
   deriving Repr, DecidableEq
 
 inductive HStatus where
@@ -262,6 +264,7 @@ def S.startHandler (s : S) (i : Nat) (k : HKind) : S :=
   | .quick => { s with handlers := s.handlers ++ [⟨i, .quick, .done⟩] }
   | .slow => { s with handlers := s.handlers ++ [⟨i, .slow, .run⟩] }
   | .stubborn r => { s with handlers := s.handlers ++ [⟨i, .stubborn r, .run⟩] }
+  | .aborter => S.doAbort { s with handlers := s.handlers ++ [⟨i, .aborter, .done⟩] }
   | .closer fa =>
     -- `fa` is the force_after argument here; the record stores the absolute deadline
     let s1 : S := { s with handlers := s.handlers ++ [⟨i, .closer (s.now + fa), .run⟩] }
